@@ -210,9 +210,11 @@ func (w *World) materialise(it Intent, h int64, idx int, sc *blockScratch) *TxPl
 			if p.Tx != nil {
 				p.Signer = ToAddr(p.Tx.From)
 			}
-			if it.Mut != nil && it.Mut.Field == "nonce" && it.Mut.How == "cur" && p.Tx != nil {
+			if it.Mut != nil && it.Mut.Field == "nonce" && it.Mut.How == "cur" && p.Tx != nil && it.Replay < len(w.HistPlain) && w.HistPlain[it.Replay] {
 				// the bytes of an earlier included tx with nothing but the nonce field rewritten to the value the
-				// sender's account expects now; the signature is kept (it covers the old nonce)
+				// sender's account expects now; the signature is kept (it covers the old nonce). Only entries that are
+				// txs exactly as the harness signed them are used: the nonce in their bytes is the signed one, so
+				// any other value is an alteration (rewriting an already altered entry could restore its genuine form).
 				if cur := w.M.Nonce(p.Signer); cur != p.Tx.Nonce {
 					orig := p.Bytes
 					p.Tx.Nonce = cur
